@@ -1498,11 +1498,21 @@ class PolarsModel(data_algebra.data_model.DataModel):
         rows = [extract_rows(i) for i in range(ct.shape[0])]
         # value columns may differ in type: numbers are stacked as their common type; anything else would be
         # cast silently (dates to day counts, numbers and logicals to text) and is refused
+        def stacking_family(t):
+            # types that stack without changing a value: numbers, texts, date-times of any unit, else the type's own kind
+            if t.is_numeric():
+                return "number"
+            if t.base_type() in (pl.String, pl.Categorical, pl.Enum):
+                return "text"
+            if t.base_type() in (pl.Date, pl.Datetime):
+                return "datetime"
+            return str(t.base_type())
+
         for c in new_names:
-            stacked_types = set([r.schema[c] for r in rows]) - {pl.Null}
-            if (len(stacked_types) > 1) and (
-                not all([t.is_numeric() for t in stacked_types])
-            ):
+            stacked_types = set(
+                [r.schema[c] for r in rows if r[c].null_count() < r.shape[0]]
+            ) - {pl.Null}
+            if len(set([stacking_family(t) for t in stacked_types])) > 1:
                 raise ValueError(
                     f"column {c} would stack values of incompatible types: {stacked_types}"
                 )
